@@ -14,18 +14,18 @@ import z3
 from vlib import NCPU, WORK, build, e2
 
 LEVEL = 'other'
-EXPLANATION = ('Bounded exhaustive exploration of sparse workbook layouts, enumerated by z3 (presence bits of a 3x3 block, a far cell, a second sparse sheet, '
+EXPLANATION = ('Bounded exhaustive exploration of sparse workbook layouts, enumerated by z3 (presence bits of a 3x3 block, a far cell, a second sparse sheet, the <dimension> tag of the sheets exact / stale / absent, '
                'an empty third sheet; rotation of an 11-value typed family over the present cells) and executed natively: each layout is a real .xlsx '
                'written by openpyxl, translated by the real Parser, loaded, and every coordinate of a 5x5 box (plus the far cell) is evaluated: planted '
                'value with its exact type, or blank; titles in workbook order; sizes = (max stored column, max stored row); array formulas by their '
                'formula text.')
-RULE = ('one job per rotation of the value family; a case = one layout; non-trivial = job closed over all 1 024 layouts, or a replayed counterexample')
+RULE = ('one job per rotation of the value family; a case = one layout; non-trivial = job closed over all 1 024 layouts (quick: one <dimension> state each; thorough: x 3 states), or a replayed counterexample')
 
 FAMILY = [7, 0, 2.5, 0.0, True, False, 'text', 'smile \U0001F600 中', datetime.datetime(2024, 2, 29, 13, 5), -3, 1e-7]
 TITLES = ['First', 'Second sheet', 'Empty']
 
 
-def _job(rot, timeout):
+def _job(rot, timeout, all_dims=True):
     from excel2pycl import Parser
     from openpyxl import Workbook
     from openpyxl.worksheet.formula import ArrayFormula
@@ -37,7 +37,20 @@ def _job(rot, timeout):
             return type(got).__name__ == 'EmptyCell'
         return type(got) is type(exp) and got == exp
 
-    def case(bits, far, arr):
+    def restamp_dimension(path, mode):
+        """what writers other than openpyxl/Excel leave behind: a dimension tag that does not cover the stored cells (mode 1: the constant A1; 2: tag removed)"""
+        import re
+        import zipfile
+        tmp = path + '.tmp'
+        with zipfile.ZipFile(path) as zin, zipfile.ZipFile(tmp, 'w', zipfile.ZIP_DEFLATED) as zout:
+            for item in zin.infolist():
+                data = zin.read(item.filename)
+                if item.filename.startswith('xl/worksheets/sheet'):
+                    data = re.sub(rb'<dimension ref="[^"]*"\s*/>', b'<dimension ref="A1"/>' if mode == 1 else b'', data)
+                zout.writestr(item, data)
+        os.replace(tmp, path)
+
+    def case(bits, far, arr, dim=0):
         planted = {}
         k = 0
         for r in range(3):
@@ -65,6 +78,8 @@ def _job(rot, timeout):
         for (s_, c, r) in list(planted):
             planted[(s_, c, r)] = ref.worksheets[s_].cell(row=r + 1, column=c + 1).value
         ref.close()
+        if dim:
+            restamp_dimension(p, dim)
         try:
             src = Parser().disable_safety_check().set_excel_file_path(p).get_translation()
             ns = {}
@@ -104,9 +119,13 @@ def _job(rot, timeout):
         for v in bs + [far, arr]:
             ex.assume(z3.And(v >= 0, v <= 1))
         ex.assume(arr == far)       # the array formula rides along with the far cell (keeps the space at 1 024 layouts per rotation)
-        vals = [ex.concretize(v) for v in bs + [far, arr]]
+        dim = z3.Int('dim')
+        ex.assume(z3.And(dim >= 0, dim <= 2))
+        if not all_dims:
+            ex.assume(dim == (bs[0] + 2 * bs[4] + bs[8] + far + rot) % 3)      # quick tier: one tag state per layout, all three spread over the layouts
+        vals = [ex.concretize(v) for v in bs + [far, arr, dim]]
         try:
-            out = case(vals[:9], vals[9], vals[10])
+            out = case(vals[:9], vals[9], vals[10], vals[11])
         except Exception as e:
             out = f'harness exception {type(e).__name__}: {e}'
         return None if out is None else dict(bits=vals, rot=rot, why=out)
@@ -118,7 +137,7 @@ def _job(rot, timeout):
 def run(report, tier, seed):
     to = 300 if tier == 'quick' else 1500
     rots = range(len(FAMILY))
-    res = e2.run_jobs([(f'layouts_rot{r}', _job, (r, to)) for r in rots], NCPU, deadline=to * 2 + 60)
+    res = e2.run_jobs([(f'layouts_rot{r}', _job, (r, to, tier != 'quick')) for r in rots], NCPU, deadline=to * 2 + 60)
     for name, r in sorted(res.items()):
         cname = 'read.' + name
         if 'error' in r:
@@ -132,11 +151,11 @@ def run(report, tier, seed):
         elif not r['complete']:
             report.condition(cname, 'E2', 'inconclusive', r['secs'], r['paths'], 'budget hit')
         else:
-            report.condition(cname, 'E2', 'holds', r['secs'], r['paths'], 'all layouts closed')
+            report.condition(cname, 'E2', 'holds', r['secs'], r['paths'], 'all layouts closed' + ('' if tier != 'quick' else ' (one <dimension> state per layout)'))
             report.sample(dict(job=cname, layouts=r['paths'], secs=r['secs']))
     report.encoded('Excel.parse', 'Excel.get_cells', 'Excel._fill_cell', 'Excel.get_titles', 'Excel.get_sheets_size', 'CellTranslator.translate_file',
                    'CellTranslator._set_cell_to_context', 'Context.build_class', 'Parser._translate')
-    report.bound('3 sheets (sparse 3x3 block + far cell G10; fixed sparse second sheet with an optional array formula; empty third sheet); 1 024 layouts per rotation of an '
+    report.bound('3 sheets (sparse 3x3 block + far cell G10; fixed sparse second sheet with an optional array formula; empty third sheet); 1 024 layouts x 3 states of the <dimension> tag (exact, stale constant A1, absent) per rotation of an '
                  '11-value family (int, 0, float, 0.0, True, False, text, non-BMP text, date-time, negative int, small float)')
     report.assume('the solver enumerates the finite layout space; every case runs natively on a real .xlsx written and read by openpyxl (no stub)',
                   'reference values are what plain (not read-only) openpyxl reads back from the same file (0.0 is stored as the number 0 -> int); empty text, date without time, time and timedelta are outside the family',
